@@ -172,8 +172,8 @@ def run(ctx):
     for n in ctx.n([5], [6, 7]):
         strings.extend(seqs(CLASSES, n))
     strings = list(dict.fromkeys(strings))
-    for i in range(0, len(strings), 4000):
-        check_strings(ctx, strings[i:i + 4000], "exhaustive")
+    for i in range(0, len(strings), 1000):     # (small batches: each driver call has its own time limit)
+        check_strings(ctx, strings[i:i + 1000], "exhaustive")
     ctx.exhaustive = True
     ctx.exhaustive_scope = (
         f"every token sequence of length <= {top} over a b . | & ^ * + ? {{1,2}} ( ) blank"
@@ -198,8 +198,8 @@ def run(ctx):
     more += ["", " ", "\t", "  \t ", "( )", "a{3,1}", "a{1,1}", "\n", "a\nb", "a\r", "a{2,1}|", "(a{2,1}", "|a{2,1}", "a{2,10}", "a{10,9}", "(ab){9,12}",
              "(ab){11,2}", "a{10,10}", "a{9,10}", "a{10,2}", "a{02,3}", "a{3,02}", "a{10,}", "a{,10}"]
     more = list(dict.fromkeys(more))
-    for i in range(0, len(more), 2000):
-        check_strings(ctx, more[i:i + 2000], "random")
+    for i in range(0, len(more), 400):
+        check_strings(ctx, more[i:i + 400], "random")
     # helpers
     pairs = []
     npairs = ctx.n(260, 5000)
